@@ -38,6 +38,7 @@ type C19Live struct {
 	SRIH      bool     `json:"srih,omitempty"`
 	PoolFirst bool     `json:"pool_first,omitempty"`
 	Order     int      `json:"order"` // 0: pending messages are delivered FIFO, 1: LIFO (both deliver everything before any timer)
+	Lim       C19Lim   `json:"lim"` // small block limits (zero value: defaults)
 	Pools     [][]int  `json:"pools"`
 	Skew      []int    `json:"skew_ms,omitempty"`
 	Inj       []C19Inj `json:"inj,omitempty"`
@@ -49,7 +50,16 @@ func c19GenLiveBase(t *rapid.T) C19Live {
 	c.SRIH = rapid.Bool().Draw(t, "srih")
 	c.PoolFirst = rapid.Bool().Draw(t, "poolfirst")
 	c.Order = rapid.IntRange(0, 1).Draw(t, "order")
-	c.Pools = c19GenPools(t, c.N)
+	switch rapid.IntRange(0, 9).Draw(t, "limmode") {
+	case 0, 1, 2, 3:
+		c.Lim = c19GenLim(t)
+		c.Pools = c19GenStuffedPools(t, c.N, c.Lim)
+	case 4:
+		c.Lim = c19GenLim(t)
+		c.Pools = c19GenPools(t, c.N)
+	default:
+		c.Pools = c19GenPools(t, c.N)
+	}
 	if rapid.Bool().Draw(t, "skewed") {
 		c.Skew = rapid.SliceOfN(rapid.SampledFrom([]int{0, 0, 1, 500, 3000}), c.N, c.N).Draw(t, "skew")
 	}
@@ -78,6 +88,7 @@ type c19LiveResult struct {
 	shortfall string // non-empty: the liveness claim failed in this run
 	events    int
 	prefixEv  int
+	k         int
 }
 
 func (net *c19Net) inAllPools(h util.Uint256) bool {
@@ -110,7 +121,7 @@ func c19RunLive(c C19Live) (res c19LiveResult, err error) {
 	if err != nil {
 		return res, fmt.Errorf("HARNESS: world: %w", err)
 	}
-	net, err := c19NewNet(w, c.Pools, c.Skew, false, c.PoolFirst)
+	net, err := c19NewNet(w, c.Pools, c.Skew, false, c.PoolFirst, c.Lim)
 	res.net = net
 	defer net.close()
 	if err != nil {
@@ -138,14 +149,34 @@ func c19RunLive(c C19Live) (res c19LiveResult, err error) {
 			net.logf("un-silence n%d", n.idx)
 		}
 	}
+	// With small block limits the pending transactions no longer fit into one block: every block carries either
+	// `capa` transactions of the universe U (at most |U|/capa such blocks) or everything its primary holds, which
+	// includes every transaction that is in all mempools. So ceil(|U|/capa) more blocks are granted.
+	K := c19LiveK
+	if capa := c.Lim.Cap(); capa > 0 {
+		u := map[int]bool{}
+		for _, p := range c.Pools {
+			for _, k := range p {
+				u[c19Mod(k, c19NTx)] = true
+			}
+		}
+		for _, in := range c.Inj {
+			u[c19Mod(in.Tx, c19NTx)] = true
+		}
+		K += (len(u) + capa - 1) / capa
+	}
+	res.k = K
 	start, _ := net.maxHeight()
-	target := start + c19LiveK
+	target := start + uint32(K)
 	net.logf("=== synchronous phase: from height %d to %d, %d pending ===", start, target, len(net.pending))
 	N := c.N
-	bound := 10*(c19LiveK*((2*N+2)*(N-1))+c19LiveK) + 3*len(net.pending)
+	bound := 10*(K*((2*N+2)*(N-1))+K) + 3*len(net.pending)
 	must := map[util.Uint256]int{}
 	note := func() {
-		for k := 0; k < c19PlainTx; k++ {
+		for k := 0; k < c19NTx; k++ {
+			if !c19IsPlain(k) {
+				continue
+			}
 			if net.inAllPools(w.txHash[k]) {
 				must[w.txHash[k]] = k
 			}
@@ -158,7 +189,7 @@ func c19RunLive(c C19Live) (res c19LiveResult, err error) {
 			break
 		}
 		if res.events >= bound {
-			res.shortfall = fmt.Sprintf("only %d of %d blocks on every node after %d events of the synchronous phase (bound %d): heights %v", int(net.minHeight())-int(start), c19LiveK, res.events, bound, net.heights())
+			res.shortfall = fmt.Sprintf("only %d of %d blocks on every node after %d events of the synchronous phase (bound %d, limits %+v): heights %v", int(net.minHeight())-int(start), K, res.events, bound, c.Lim, net.heights())
 			break
 		}
 		res.events++
@@ -232,7 +263,7 @@ func c19RunLive(c C19Live) (res c19LiveResult, err error) {
 		}
 		for h, k := range must {
 			if !have[h] {
-				res.shortfall = fmt.Sprintf("transaction %d (%s) was in every mempool before block %d of %d but is in none of the %d blocks produced", k, h.StringLE(), c19LiveK-1, c19LiveK, c19LiveK)
+				res.shortfall = fmt.Sprintf("transaction %d (%s) was in every mempool before block %d of %d but is in none of the %d blocks produced (limits %+v)", k, h.StringLE(), c19LiveK-1, K, K, c.Lim)
 				break
 			}
 		}
